@@ -8,6 +8,8 @@ package main
 // are then compared with the implementation on exactly the inputs where such an edit shows.
 
 import (
+	"archive/tar"
+	"bytes"
 	"fmt"
 	"sort"
 	"strconv"
@@ -477,6 +479,107 @@ func witnessSeeds(repo string) []seed {
 		out = append(out, seed{kind: "witness:" + w.name, data: w.data})
 	}
 	return out
+}
+
+// inputs that several sub-formats of one parent accept at once: for every pair of siblings with a term, the first ways
+// of satisfying both terms (and the ancestors') joined; and tar archives (written by archive/tar) whose first member is
+// named after the leading bytes another root format looks for.  Where two sub-formats accept, the priority order decides.
+func (c *runCtx) siblingStream(repo string) {
+	all := map[string]string{}
+	terms, _ := translateFuncs(repo)
+	for n, t := range terms {
+		all[n] = t
+	}
+	for n, t := range glCombTerms {
+		all["comb:"+n] = t
+	}
+	solsOf := func(det string) [][]wReq {
+		t, ok := all[det]
+		if !ok {
+			t, ok = all["comb:"+det]
+		}
+		if !ok {
+			return nil
+		}
+		r := (&wParser{s: t}).parse()
+		if r == nil {
+			return nil
+		}
+		sl := wSolveP(r, true)
+		if len(sl) > 2 {
+			sl = sl[:2]
+		}
+		return sl
+	}
+	decls := parseTree(repo)
+	parent := map[string]string{}
+	var vars []string
+	for v, d := range decls {
+		vars = append(vars, v)
+		for _, ch := range d.children {
+			parent[ch] = v
+		}
+	}
+	sort.Strings(vars)
+	n := 0
+	for _, v := range vars {
+		d := decls[v]
+		var anc [][]wReq
+		ok := true
+		for a := v; a != "" && decls[a] != nil && decls[a].det != "RootTrue"; a = parent[a] {
+			sl := solsOf(decls[a].det)
+			if len(sl) == 0 {
+				ok = false
+				break
+			}
+			if anc == nil {
+				anc = [][]wReq{sl[0]}
+			} else {
+				anc = wCross(anc, [][]wReq{sl[0]})
+			}
+		}
+		if !ok {
+			continue
+		}
+		if anc == nil {
+			anc = [][]wReq{{}}
+		}
+		for i := 0; i < len(d.children); i++ {
+			si := solsOf(decls[d.children[i]].det)
+			if len(si) == 0 {
+				continue
+			}
+			for j := i + 1; j < len(d.children); j++ {
+				sj := solsOf(decls[d.children[j]].det)
+				if len(sj) == 0 {
+					continue
+				}
+				for _, reqs := range wCross(anc, wCross(sj, si)) { // the earlier sibling's bytes win where they overlap
+					x, _ := wBuild(reqs, 0x00)
+					c.obsCase("siblings:"+d.children[i]+"+"+d.children[j], x, 3072)
+					n++
+				}
+			}
+		}
+	}
+	// tar archives whose first member name starts with another format's leading bytes
+	seenName := map[string]bool{}
+	for _, w := range termWitnesses(repo) {
+		if !w.pos || len(w.data) == 0 || len(w.data) > 90 || bytes.IndexByte(w.data, 0) >= 0 || seenName[string(w.data)] {
+			continue
+		}
+		seenName[string(w.data)] = true
+		var buf bytes.Buffer
+		tw := tar.NewWriter(&buf)
+		if err := tw.WriteHeader(&tar.Header{Name: string(w.data) + "data.bin", Mode: 0o644, Size: 3, Format: tar.FormatUSTAR}); err != nil {
+			continue
+		}
+		tw.Write([]byte("abc"))
+		tw.Close()
+		c.obsCase("tar-named:"+w.name, buf.Bytes(), 3072)
+		n++
+	}
+	c.stats.Extra["sibling_inputs"] = n
 }
 
 // the det stream over the witnesses: whole, and cut / padded to every length the term mentions
